@@ -32,6 +32,11 @@ NULLS = [
     (["0", "0.0", "-0.0", "0E0"], 0.0),
     (["1e30", "1E+30", "1.0e30"], 1e30),
     (["-99999", "-99999.000", "-99999.", "-099999"], -99999.0),
+    # more than six significant digits (a NULL that a short number format cannot carry)
+    (["-99999.25", "-99999.2500", "-9.999925E4"], -99999.25),
+    (["1234567.5", "1.2345675e6", "+1234567.50"], 1234567.5),
+    (["-999.2501", "-9.992501E2"], -999.2501),
+    (["-9999999.0", "-9999999.", "-9.999999E6"], -9999999.0),
     (["N/A", "abc", "none", "- 999.25"], None),
     ([None], None),
 ]
